@@ -35,9 +35,9 @@ def in_domain(case, rho_ok=False):
     (duplicate-free: sampled without replacement), no rho, a horizon of a whole number of steps.
     rho_ok (C04 only: the row checker does not need the initial sets): also the rho path -- by
     C05_discrete_SIR_rho_selects_round_N_rho_distinct_nodes a rho run is a run from an explicit duplicate-free set --
-    without initial_recovereds (with them the sample may overlap: the finding of probe_rho_r0)"""
+    without initial_recovereds (rho together with initial_recovereds is rejected with EoNError: Props/C05disc.v)"""
     if case['i0'] is None:
-        if not (rho_ok and not case.get('r0')): return False
+        if not (rho_ok and case.get('r0') is None): return False
         n = len(case['gc'].order)
         k = 1 if case['rho'] is None else int(round(n * float(case['rho'])))
         if not 0 <= k <= n: return False
@@ -203,44 +203,6 @@ def shown(field, plain, full):
     return ({k: v for k, v in list(full['hist'].items())[:5]}, plain['rows'][:8])
 
 
-def probe_rho_r0(run, pid, per):
-    """a FINDING of the discrete component (Props/C05disc.v C05_discrete_SIR_rho_respects_initial_recovereds_refuted,
-    proposed_known_findings.json): rho together with initial_recovereds lets random.sample draw an initially
-    recovered node as initially infected; S goes negative and R exceeds N.  Re-observed on the code here (real
-    `random`, seeded).  Reported as a violation only when the key is listed in known_findings.json (then it prints
-    KNOWN-FINDING and does not fail); otherwise recorded in the evidence, so that the unchanged tree stays green
-    until the coordinator has taken the proposed entry over."""
-    import random as pyrandom
-    import networkx as nx
-    EoN = C.import_eon()
-    G = nx.path_graph(4)
-    seen = {}
-    calls = {'discrete_SIR': lambda: EoN.discrete_SIR(G, args=(1.0,), rho=0.5, initial_recovereds=[0, 1]),
-             'basic_discrete_SIR': lambda: EoN.basic_discrete_SIR(G, 1.0, rho=0.5, initial_recovereds=[0, 1]),
-             'percolation_based_discrete_SIR': lambda: EoN.percolation_based_discrete_SIR(G, 1.0, rho=0.5, initial_recovereds=[0, 1])}
-    for entry, f in calls.items():
-        for seed in range(12):
-            pyrandom.seed(seed)
-            try:
-                t, S, I, R_ = f()
-            except Exception as e:
-                seen[entry] = {'seed': seed, 'raised': type(e).__name__}      # rejecting the combination is fine (fast_SIR does)
-                break
-            rows = [(float(a), int(b), int(c), int(d)) for a, b, c, d in zip(t, S, I, R_)]
-            if any(min(r[1:]) < 0 or sum(r[1:]) != 4 or max(r[1:]) > 4 for r in rows):
-                seen[entry] = {'seed': seed, 'rows': rows}
-                break
-    bad = {e: v for e, v in seen.items() if 'rows' in v}
-    known = {f['key'] for f in C.known_findings().get('findings', []) if f.get('property') == pid}
-    for entry, v in bad.items():
-        key = '%s/%s/rho+initial_recovereds' % (pid, 'discrete_SIR')
-        if key in known:
-            run.violation(key, '%s(path_graph(4), p=1, rho=0.5, initial_recovereds=[0,1]) with random.seed(%d) returns rows %r: an initially recovered node was drawn as initially infected' % (entry, v['seed'], v['rows']),
-                          {'entry': entry, 'graph': 'nx.path_graph(4)', 'p': 1.0, 'rho': 0.5, 'initial_recovereds': [0, 1], 'seed': v['seed'], 'rows': v['rows']})
-    per['finding rho+initial_recovereds'] = {'observed': bad, 'rejected_by': {e: v for e, v in seen.items() if 'raised' in v},
-                                             'status': 'listed in known_findings.json' if any(k.endswith('rho+initial_recovereds') for k in known) else 'proposed (proposed_known_findings.json), not yet listed: not reported as a violation'}
-
-
 def part(run, tier, pid, props, per):
     """the discrete-time part of property pid (C04 / C05 / C09 / C10): re-checks Props/<pid>disc.v (its theorems join
     the obligations of pid) and applies the extracted checker of that property to the implementation's own outputs;
@@ -293,11 +255,6 @@ def part(run, tier, pid, props, per):
             run.violation('%s/%s/%s' % (pid, entry, chk),
                           'the extracted checker %s (Model/DiscreteChk.v%s) rejects the implementation\'s output %r' % (
                               chk, '; proved sound and accepted on every model run, Props/%s.v' % pname if PROVED[case['kind']] else '', shown(field, plain, full)), rj)
-    if pid in ('C04', 'C05'):
-        try:
-            probe_rho_r0(run, pid, per)
-        except Exception as e:
-            per['finding rho+initial_recovereds'] = {'probe failed': repr(e)}
     for entry, st in stat.items():
         per[entry + '/extracted-checker'] = dict(st, proved=PROVED[[k for k, e in DL.ENTRY.items() if e == entry][0]], props='Props/%s.v' % pname, checker=chk)
 
